@@ -717,8 +717,36 @@ func staticCheck(c *caseT, cp *lib.Compiled) {
 		key := lib.Hex(fn.Instructions) + lib.SrcMapSexp(fn.SourceMap)
 		res.Count("static", key, true)
 		starts := map[int]bool{}
-		for _, in := range ins {
+		index := map[int]int{}
+		for i, in := range ins {
 			starts[in.Pos] = true
+			index[in.Pos] = i
+		}
+		// control-flow reachability from the entry (dead-code removal keeps unreachable tails behind jump targets
+		// whose jumps were removed; such instructions never execute and never fail)
+		live := make([]bool, len(ins))
+		work := []int{0}
+		for len(work) > 0 {
+			i := work[len(work)-1]
+			work = work[:len(work)-1]
+			if i < 0 || i >= len(ins) || live[i] {
+				continue
+			}
+			live[i] = true
+			switch ins[i].Op {
+			case parser.OpReturn, parser.OpSuspend:
+			case parser.OpJump:
+				if j, ok := index[ins[i].Args[0]]; ok {
+					work = append(work, j)
+				}
+			case parser.OpJumpFalsy, parser.OpAndJump, parser.OpOrJump:
+				if j, ok := index[ins[i].Args[0]]; ok {
+					work = append(work, j)
+				}
+				work = append(work, i+1)
+			default:
+				work = append(work, i+1)
+			}
 		}
 		bad := func(why string) {
 			res.Disagree(lib.Disagreement{Stream: "static", Input: map[string]interface{}{"main": c.Main, "modules": c.Modules, "function": fi, "insts": lib.Hex(fn.Instructions),
@@ -731,6 +759,10 @@ func staticCheck(c *caseT, cp *lib.Compiled) {
 			}
 		}
 		for i, in := range ins {
+			if !live[i] {
+				res.Dist("static:unreachable-instruction-skipped")
+				continue
+			}
 			e, has := fn.SourceMap[in.Pos]
 			if !has && (ownAdv[in.Op] || zeroAdv[in.Op] || (i+1 < len(ins) && zeroAdv[ins[i+1].Op])) {
 				// (the SUSPEND that Bytecode() appends to main has no entry; it cannot fail)
